@@ -79,7 +79,12 @@ for st in ["dest->newbuffer = NULL; dest->buffer = NULL;",
            "dest->pub.next_output_byte = dest->buffer = *outbuffer;",
            "if (!reused) dest->bufsize = *outsize;", "dest->pub.free_in_buffer = dest->bufsize;"]:
     need(d, st, "jdatadst-tj.c jpeg_mem_dest_tj")
-clears = norm("reused = TRUE; else dest->newbuffer = NULL;") in d
+clears = norm("reused = TRUE; else dest->newbuffer = NULL;") in d or norm("reused = TRUE; else { dest->newbuffer = NULL;") in d
+# are dest->outbuffer / dest->outsize bound on every call (statements at the top level, not inside the else branch)?
+if norm("dest->outbuffer = outbuffer; dest->outsize = outsize;") not in d:
+    sys.exit("jdatadst-tj.c jpeg_mem_dest_tj: binding of outbuffer/outsize not found")
+tj_rebind = norm("dest->newbuffer = NULL; dest->outbuffer = outbuffer; dest->outsize = outsize; dest->alloc = alloc;") in d or \
+    norm("reused = TRUE; dest->outbuffer = outbuffer; dest->outsize = outsize; dest->alloc = alloc;") in d
 if not clears and norm("reused = TRUE; dest->outbuffer = outbuffer;") not in d:
     sys.exit("jdatadst-tj.c jpeg_mem_dest_tj: neither the `else dest->newbuffer = NULL` rule nor its absence recognised")
 
@@ -105,6 +110,7 @@ t2 = func(ij, "term_mem_destination", "jdatadst.c")
 need(t2, "*dest->outbuffer = dest->buffer;", "jdatadst.c term_mem_destination")
 need(t2, "*dest->outsize = (unsigned long)(dest->bufsize - dest->pub.free_in_buffer);", "jdatadst.c term_mem_destination")
 d2 = func(ij, "jpeg_mem_dest", "jdatadst.c")
+ijg_rebind = norm("dest->term_destination = term_mem_destination; dest->outbuffer = outbuffer; dest->outsize = outsize;").replace("dest->term","dest->pub.term") in d2
 for st in ["dest->newbuffer = NULL;", "if (*outbuffer == NULL || *outsize == 0) {",
            "dest->newbuffer = *outbuffer = (unsigned char *)malloc(OUTPUT_BUF_SIZE);", "*outsize = OUTPUT_BUF_SIZE;",
            "dest->pub.next_output_byte = dest->buffer = *outbuffer;",
@@ -194,6 +200,9 @@ print("(* jpeg_mem_dest_tj: `else dest->newbuffer = NULL` when the buffer is not
 print("Definition tj_clears_newbuffer : bool := %s." % ("true" if clears else "false"))
 print("(* jpeg_mem_dest_tj: the allocation branch is not taken for a reused buffer whose size is given as 0 (the zero-size fix) *)")
 print("Definition tj_zero_size_keeps_reused : bool := %s." % ("true" if zfix else "false"))
+print("(* dest->outbuffer / dest->outsize are assigned unconditionally on every call *)")
+print("Definition tj_rebinds_out_always : bool := %s." % ("true" if tj_rebind else "false"))
+print("Definition ijg_rebinds_out_always : bool := %s." % ("true" if ijg_rebind else "false"))
 print("Definition ijg_output_buf_size : Z := %d." % ij_obs)
 print("Definition ijg_growth : Z := %d." % ij_growth)
 print("Definition huff_local_bufsize : Z := %d.   (* jchuff.c BUFSIZE = DCTSIZE2 * %s *)" % (huff_bufsize, huff_k))
